@@ -47,7 +47,9 @@ BAD = lambda k="arg": ["bad", k]                        # noqa: E731
 
 A1 = ["add", 0, [T("m", "my_func"), BAD("arg"), T("m", "myXfunc"), T("m", "MY_FUNC")]]
 A2 = ["add", 1, [T("m", "foo"), T("m", "Foo.bar"), T("M", "foo"), T("m", "my_func")]]
-A3 = ["add", 2, [T("m", "a%b", 1), BAD("func"), T("m", "aXXb", 1), T("", "foo", 2)]]
+A3 = ["add", 2, [T("m", "a%b", 1), BAD("func"), T("m", "aXXb", 1), T("", "foo", 2),
+                 T("m", "a[b", 1), T("m", "a[b]c", 1), T("m", "a?c", 1), T("m", "aXc", 1), T("m", "a*b", 1),
+                 T("m", "a\\b", 1)]]
 # rows of one function that differ in exactly one column each (arg_types / return_type / yield_type, NULL vs text)
 A4 = ["add", 1, [T("m", "foo", 0), T("m", "foo", 8), T("m", "foo", 9), T("m", "foo", 6), T("m", "foo", 7),
                  T("m", "foo", 10), T("m", "foo", 8)]]
@@ -60,8 +62,9 @@ F2 = ["filter", 0, "m", "foo", 2000]
 F3 = ["filter", 2, "m", "a%b", 2000]
 F4 = ["filter", 0, "m", None, 2]
 F5 = ["filter", 1, "M", "FOO", 2000]
+F6 = ["filter", 0, "m", "a[", 2000]
 L1 = ["modules", 1]
-LITERAL_ALPHABET = [A1, A2, A3, A4, X1, R0, F1, F2, F3, F4, F5, L1]
+LITERAL_ALPHABET = [A1, A2, A3, A4, X1, R0, F1, F2, F3, F4, F5, F6, L1]
 MUTATORS = [A1, A2, A3, A4, X1, X2, X3, R0]
 
 
@@ -91,7 +94,7 @@ def random_history(rnd, maxlen=40):
                 if rnd.random() < 0.15:
                     specs.append(BAD(rnd.choice(["arg", "ret", "func"])))
                 else:
-                    specs.append(T(rnd.choice(["m", "m", "M", ""]), rnd.choice(sm.QUALNAMES),
+                    specs.append(T(rnd.choice(["m", "m", "M", ""]), rnd.choice(sm.QUALNAMES + sm.GLOB_QUALNAMES),
                                    rnd.choice([0, 0, 0, 1, 2, 3, 6, 7, 8, 9, 10])))
             ops.append(["add", rnd.randrange(3), specs])
         elif x < 0.45:
@@ -730,10 +733,10 @@ def run(ctx):
             [c for c in cases if c["kind"] == "concurrent"][:1]
     return {
         "evaluations": len(cases), "distinct_nontrivial": distinct,
-        "rule": f"all {n_exh} operation sequences of length <= {L} over a 12-operation alphabet (4 adds with colliding "
+        "rule": f"all {n_exh} operation sequences of length <= {L} over a 13-operation alphabet (4 adds with colliding (case, LIKE and GLOB metacharacters) "
                 "names, duplicates and unserialisable traces on 3 connections, an interrupted add, reopen, 5 filters, "
                 "list_modules); every sequence of <= 3 mutators (adds, interrupted / locked-out / BaseException adds, reopen) "
-                "followed by a sweep of 93 queries (3 modules x 18 prefixes incl. None, '', wildcard and case variants; "
+                "followed by a sweep of 117 queries (3 modules x 26 prefixes incl. None, '', wildcard and case variants; "
                 "limits 0..3, 2000); random histories of 5..40 operations; batches with unserialisable traces at every "
                 "subset of positions; interrupt of the insert at every VM step; reads from inside another connection's "
                 "transaction; SIGKILL of writer processes at VM steps / random times; 2..16 concurrent writers + reader. "
